@@ -121,10 +121,12 @@ def build_all(verbose=False):
         if _newer(os.path.join(COQ, "_CoqProject"), mk):
             rc, out = sh("coq_makefile -f _CoqProject -o Makefile", cwd=COQ)
             log.append(out)
-        rc, out = sh(f"timeout 3000 make -k -j{NCPU} 2>&1 | grep -v '^Closed under' | tail -60",
-                     cwd=COQ, timeout=3100)
-        rc2, out2 = sh(f"timeout 600 make -q", cwd=COQ)
-        ok_proofs = (rc2 == 0)
+        rc, out = sh(f"timeout 3000 make -k -j{NCPU}", cwd=COQ, timeout=3100)
+        out = "\n".join(l for l in out.splitlines() if not l.startswith("Closed under"))[-6000:]
+        listed = [l.strip() for l in open(os.path.join(COQ, "_CoqProject")) if l.strip().endswith(".v")]
+        ok_proofs = (rc == 0) and all(
+            os.path.exists(os.path.join(COQ, v[:-2] + ".vo")) and
+            not _newer(os.path.join(COQ, v), os.path.join(COQ, v[:-2] + ".vo")) for v in listed)
         log.append(out)
         if verbose:
             print(out)
